@@ -411,8 +411,8 @@ func RunCheck(opts CheckOpts) int {
 			fmt.Printf("   %-13s %-7s %5dms ×%-3d %s\n", nr.Status, nr.Solver, nr.Ms, nr.N, nr.Name)
 			if nr.Status == "failed" && nr.Worst != nil {
 				out := nr.Worst.Res.Output
-				if len(out) > 1500 {
-					out = out[:1500] + "…"
+				if len(out) > 400 {
+					out = out[:400] + "…"
 				}
 				fmt.Printf("        %s: %s\n", nr.Worst.Res.Status, strings.ReplaceAll(out, "\n", " "))
 			}
